@@ -1,6 +1,7 @@
 SPECIFICATION SimSpec
 CONSTANTS
   WorkerCpus <- S1_Workers
+  LateWorkers <- S1_Late
   WorkerGroup <- S1_Groups
   WorkerLife <- S1_Life
   MaxTicks = 0
